@@ -68,3 +68,52 @@ def determinism(args):
         else:
             print(f"selftest-determinism {prop}: {len(outs[0])} runs identical across processes, worker counts (16/4) and simulator hash seeds (0/7)")
     return 2 if bad else 0
+
+
+def sensitivity(args):
+    """Applies seeded changes (seeded/<id>/patch.diff) one at a time to a scratch copy of the repository
+    (never to /repo), runs the owning check's quick tier against the copy via VERIF_REPO, and reports
+    whether it raised a VIOLATION.  VERIF_SENS_IDS=a,b,c selects changes (default: one per property)."""
+    import shutil
+    import tempfile
+
+    seeded = os.path.join(core.VERIF_DIR, "seeded")
+    metas = {}
+    for d in sorted(os.listdir(seeded)):
+        mp = os.path.join(seeded, d, "meta.json")
+        if os.path.exists(mp):
+            metas[d] = json.load(open(mp))
+    ids = [x for x in os.environ.get("VERIF_SENS_IDS", "").split(",") if x]
+    if ids == ["all"]:
+        ids = sorted(metas)
+    if not ids:
+        seen = set()
+        for d, m in sorted(metas.items()):
+            if m["property"] not in seen:
+                seen.add(m["property"])
+                ids.append(d)
+    base = "/dev/shm" if os.path.isdir("/dev/shm") else tempfile.gettempdir()
+    missed = 0
+    for sid in ids:
+        m = metas[sid]
+        scratch = os.path.join(base, f"emboss-verif-sens.{os.getpid()}.{sid}")
+        shutil.rmtree(scratch, ignore_errors=True)
+        shutil.copytree(core.REPO, scratch, ignore=shutil.ignore_patterns(".git", "__pycache__"))
+        try:
+            r = subprocess.run(["patch", "-p1", "-s", "-i", os.path.join(seeded, sid, "patch.diff")], cwd=scratch, capture_output=True, text=True)
+            if r.returncode != 0:
+                print(f"selftest-sensitivity {sid}: patch does not apply to the current tree ({r.stdout.strip()[:200]})")
+                missed += 1
+                continue
+            env = dict(os.environ, VERIF_REPO=scratch, VERIF_REPLAY_DIR=os.path.join(scratch, "_replays"))
+            p = subprocess.run([core.PYTHON, os.path.join(core.VERIF_DIR, "bin", "check.py"), m["property"], "--tier", "quick", "--no-evidence"],
+                               env=env, capture_output=True, text=True)
+            viol = [l for l in p.stdout.splitlines() if l.startswith("VIOLATION")]
+            ok = p.returncode == 1 and viol
+            print(f"selftest-sensitivity {sid}: property {m['property']} {'DETECTED (' + str(len(viol)) + ' violation classes)' if ok else 'MISSED rc=' + str(p.returncode)}")
+            if not ok:
+                missed += 1
+        finally:
+            shutil.rmtree(scratch, ignore_errors=True)
+    print(f"selftest-sensitivity: {len(ids) - missed} of {len(ids)} seeded changes detected by the quick tier")
+    return 0 if missed == 0 else 2
